@@ -1183,6 +1183,23 @@ impl CompileState<'_> {
 
                 all_values.push((value.clone(), v_span));
             }
+            // A binding pattern must be the only pattern of its arm: in `Some(x) | None => ..`
+            // `x` would have no value when the other alternative matches.
+            if values.len() > 1 {
+                let is_binding = |v: &&Expression| match &v.inner {
+                    ExprKind::Ok(inner) | ExprKind::Err(inner) | ExprKind::Optional(Some(inner)) => {
+                        matches!(inner.inner, ExprKind::Identifier(_))
+                    }
+                    _ => false,
+                };
+                if let Some(v) = values.iter().find(is_binding) {
+                    return Err(self.err(InvalidExpression(
+                        "a binding pattern cannot be combined with other patterns in one match arm",
+                        v.clone(),
+                        None,
+                    )));
+                }
+            }
         }
 
         // find duplicate default arms
